@@ -120,3 +120,23 @@ package testutil
 //@   ensures [one-balance-each] result1 == nil ==> len(result0) == len(deposits)
 //@   ensures [no-loss] forall a proto4.Account :: { ec.pools[a] } cval(ec.pools[a]) >= cval(old(ec.pools[a]))
 //@   ensures [others] forall a proto4.Account :: { ec.pools[a] } (forall k int :: { deposits[k] } 0 <= k && k < len(deposits) ==> deposits[k].Account != a) ==> ec.pools[a] == old(ec.pools[a])
+//
+// C06: the reference wallet store the wallet is verified against (its UpdateTx). Applying an index
+// removes exactly the spent ids and stores every created element under its id, whatever its value;
+// reverting removes every removed id and stores every unspent element again.
+//@ func (*ephemeralWalletUpdateTxn).WalletApplyIndex props C06
+//@   requires et != nil && et.store != nil && et.store.utxos != nil
+//@   loop "range spent"
+//@     invariant [store] et == old(et) && et.store == old(et.store) && et.store.utxos == old(et.store.utxos)
+//@     invariant [spent-gone] forall k int :: { spent[k] } 0 <= k && k <= rangeindex ==> !(spent[k].ID in et.store.utxos)
+//@   loop "range created"
+//@     invariant [store] et == old(et) && et.store == old(et.store) && et.store.utxos == old(et.store.utxos)
+//@     invariant [created-stored] forall k int :: { created[k] } 0 <= k && k <= rangeindex ==> (created[k].ID in et.store.utxos) && et.store.utxos[created[k].ID].SiacoinOutput == created[k].SiacoinOutput
+//@   ensures [created-stored] result == nil ==> (forall k int :: { created[k] } 0 <= k && k < len(created) ==> (created[k].ID in et.store.utxos))
+//@   ensures [tip] result == nil ==> et.store.tip == index
+//@ func (*ephemeralWalletUpdateTxn).WalletRevertIndex props C06
+//@   requires et != nil && et.store != nil && et.store.utxos != nil
+//@   loop "range unspent"
+//@     invariant [store] et == old(et) && et.store == old(et.store) && et.store.utxos == old(et.store.utxos)
+//@     invariant [unspent-stored] forall k int :: { unspent[k] } 0 <= k && k <= rangeindex ==> (unspent[k].ID in et.store.utxos)
+//@   ensures [unspent-stored] result == nil ==> (forall k int :: { unspent[k] } 0 <= k && k < len(unspent) ==> (unspent[k].ID in et.store.utxos))
